@@ -802,13 +802,22 @@ def Array(
             _length = length or cls.length
             try:
                 if issubclass(cls.element_type, BitArrayType):
+                    # values is a flat list of bits; an explicit ``length`` counts bits, the array's own length elements
                     chunk_size = cls.element_type.size * 8
+                    if isinstance(_length, int):
+                        _bits = _length if length else _length * chunk_size
+                        if len(values) < _bits:
+                            raise DataError(
+                                f"Not enough values to encode array of {cls.element_type}[{_length}]"
+                            )
+                        if not length:
+                            values = values[:_bits]
+                    _len = len(values) // chunk_size
                     values = [
                         values[i : i + chunk_size]
                         for i in range(0, len(values), chunk_size)
                     ]
-
-                if isinstance(_length, int):
+                elif isinstance(_length, int):
                     if len(values) < _length:
                         raise DataError(
                             f"Not enough values to encode array of {cls.element_type}[{_length}]"
